@@ -279,7 +279,7 @@ func c17SelectRace(c *Case, backoff bool, tries int) {
 }
 
 func runC17(r *Run) {
-	r.Rule = "real TaskQueueSet + started TaskQueue workers + the real ManagerEventsHandler; every worker is stepped from one yield point to the next (loop, afterCtxCheck, beforeSelect, tick, handler entry, afterHandler, exit); a case is a random schedule over 1-4 queues (deliveries through the consumer incl. absent queues, handler results Success/Fail/Repeat/Keep with head/after/tail tasks and delays, Filter from inside the handler, repeated Start, queues created/started late) with TaskQueueSet.Stop() injected at position k (quick: k random in 0..30; thorough: every k in 0..40 for 60 schedule seeds), then all workers run to exit, late deliveries and late starts follow; when the stop finds a worker before the select the ticker is given time to fire so that both select cases are ready. Non-trivial = the observed event trace has >= 6 events; distinct = distinct op-line sequences."
+	r.Rule = "real TaskQueueSet + started TaskQueue workers + the real ManagerEventsHandler; every worker is stepped from one yield point to the next (loop, afterCtxCheck, beforeSelect, tick, handler entry, afterHandler, exit); a case is a random schedule over 1-4 queues (deliveries through the consumer incl. absent queues, handler results Success/Fail/Repeat/Keep with head/after/tail tasks and delays, Filter from inside the handler, repeated Start, queues created/started late) with TaskQueueSet.Stop() injected at position k (quick: k random in 0..30; thorough: every k in 0..40 for 300 schedule seeds), then all workers run to exit, late deliveries and late starts follow; free-running cases (real goroutines, Stop() at a random moment while events keep arriving) check the weak form (at most one more start per queue, every worker exits, nothing after exit); one case runs the real ScheduleManager with an every-second crontab and checks that no tick arrives once Stop() has taken effect; when the stop finds a worker before the select the ticker is given time to fire so that both select cases are ready. Non-trivial = the observed event trace has >= 6 events; distinct = distinct op-line sequences."
 	r.One(0, func(c *Case, _ *Rng) {
 		c.Desc = "corpus: stop while the worker sleeps in a back-off, ticker and Done both ready at the select"
 		c17SelectRace(c, true, 40)
@@ -288,13 +288,23 @@ func runC17(r *Run) {
 		c.Desc = "corpus: stop while the worker waits on a queue that just received a task, ticker and Done both ready"
 		c17SelectRace(c, false, 40)
 	})
-	n := r.N(400, 3000)
+	cronDone := make(chan struct{})
+	go func() {
+		defer close(cronDone)
+		r.One(2, func(c *Case, _ *Rng) {
+			c.Desc = "the real ScheduleManager: no tick after Stop()"
+			c17Cron(c)
+		})
+	}()
+	n := r.N(1200, 12000)
 	r.Cases(10, n, 0, func(c *Case, rng *Rng) {
 		c17Random(c, rng, rng.Range(0, 30))
 	})
+	r.Cases(50000, r.N(300, 4000), 0, func(c *Case, rng *Rng) { c17Free(c, rng) })
+	<-cronDone
 	if r.Thorough() {
 		// every stop position for a set of schedule seeds
-		const seeds, positions = 60, 41
+		const seeds, positions = 300, 41
 		r.Cases(100000, seeds*positions, 0, func(c *Case, _ *Rng) {
 			k := c.Idx - 100000
 			rng := NewRng(r.Seed*7919 + uint64(k/positions)) // same schedule, different stop position
